@@ -87,6 +87,16 @@ class C08(F.Spec):
                                                 "msg 110 0100000000000000000100000000000000", "adv 1500",
                                                 "msg 110 0100000000000000000232000000000000", "adv 1500"],
                          {"tags": ["board:rs1", "wrap:1", "witness:zero-stamp"], "board": "rs1"})
+        # the buttons of every shutter that has them (the third one sits on relay table entries 4 and 5): up, then down while it runs,
+        # then up again shortly after - routed through the shutter logic, never as plain relay toggles
+        for board in ("rs1", "rs2", "rs3", "rs4"):
+            for k, (pu, pd) in enumerate(rs_inputs(board)):
+                ops = ["boot 12345", "board %s" % board, "motor 0 100 3000 3000", "init", "rstimes %d 5000 5000 0 0" % k,
+                       "rspos %d 5000 0" % k, "rslog 1", "adv 1000"]
+                for pin, gap in ((pu, 1500), (pd, 400), (pu, 1500), (pd, 1500)):
+                    ops += ["input %d 0" % pin, "adv 200", "input %d 1" % pin, "adv %d" % gap]
+                ops.append("adv 3000")
+                yield F.Case("buttons-%s-%d" % (board, k), ops, {"tags": ["board:" + board, "wrap:0", "buttons-of-each-shutter"], "board": board})
         for i in range(n):
             board, boot, ops = gen_rs_scenario(rng, tier)
             yield F.Case("gen%d-%s" % (i, board), ops, {"tags": ["board:" + board, "wrap:%d" % (boot > W - 40000000)],
